@@ -140,6 +140,14 @@ func (c *Ctx) simpSx(n *sx) *sx {
 				if n.kids[1].String() == n.kids[2].String() {
 					return atomSx("true")
 				}
+				for i := 1; i <= 2; i++ {
+					if n.kids[i].kids == nil && n.kids[i].atom == "true" {
+						return n.kids[3-i]
+					}
+					if n.kids[i].kids == nil && n.kids[i].atom == "false" {
+						return c.simpSx(&sx{kids: []*sx{atomSx("not"), n.kids[3-i]}})
+					}
+				}
 				if bok && b == 0 && c.nonzero[n.kids[1].String()] {
 					return atomSx("false")
 				}
@@ -220,6 +228,16 @@ func (c *Ctx) simpSx(n *sx) *sx {
 			}
 			if n.kids[1].kids == nil && n.kids[1].atom == "false" {
 				return n.kids[3]
+			}
+		}
+	case "i.tid", "i.ref":
+		if len(n.kids) == 2 {
+			k := n.kids[1]
+			if k.kids != nil && len(k.kids) == 3 && k.kids[0].atom == "mk-iface" {
+				if head == "i.tid" {
+					return k.kids[1]
+				}
+				return k.kids[2]
 			}
 		}
 	case "s.ref", "s.off", "s.len", "s.cap":
@@ -313,7 +331,7 @@ func shiftQuant(body, q, j string) (string, []string, bool) {
 			if off == "" {
 				off = o
 			} else if off != o {
-				ok = false
+				// a read at a different offset: it stays in terms of q (rewritten to j - off below) and is no pattern
 				return n
 			}
 			nn := &sx{kids: []*sx{n.kids[0], n.kids[1], atomSx(j)}}
